@@ -39,6 +39,24 @@ def elem_digests(r):
     return sorted(set(digest(json.dumps(x, sort_keys=True, default=str)) for x in r[1]))[:60]
 
 
+STATE_SWITCHES = ('flow_analysis_enabled', 'allow_descriptor_getattr', 'dynamic_params_depth', 'is_analysis')
+
+
+def switches(script):
+    """Every process-wide setting and every per-Script switch that the code turns temporarily: observed after each
+    query (Switch.tla: SwitchRestored)."""
+    import jedi
+    out = {}
+    for k, v in vars(jedi.settings).items():
+        if not k.startswith('_') and isinstance(v, (bool, int, float, str, list, tuple, type(None))):
+            out['settings.' + k] = repr(v)
+    st = script._inference_state
+    for k in STATE_SWITCHES:
+        if hasattr(st, k):
+            out['state.' + k] = repr(getattr(st, k))
+    return out
+
+
 def run_query(s, m, line, col):
     try:
         if m == 'get_names':
@@ -82,13 +100,17 @@ def main():
         if job['mode'] == 'fresh':            # every query on its own Script
             for (m, line, col) in job['queries']:
                 s = jedi.Script(src, path=path, project=proj, environment=env)
+                sw0 = switches(s)
                 r = run_query(s, m, line, col)
-                res.append([digest(r), r[0], set_digest(r), elem_digests(r)])
+                sw1 = switches(s)
+                res.append([digest(r), r[0], set_digest(r), elem_digests(r), sorted(k for k in sw0 if sw0[k] != sw1.get(k))])
         else:                                 # all queries, in this order, on ONE Script
             s = jedi.Script(src, path=path, project=proj, environment=env)
+            sw0 = switches(s)
             for (m, line, col) in job['queries']:
                 r = run_query(s, m, line, col)
-                res.append([digest(r), r[0], set_digest(r), elem_digests(r)])
+                sw1 = switches(s)
+                res.append([digest(r), r[0], set_digest(r), elem_digests(r), sorted(k for k in sw0 if sw0[k] != sw1.get(k))])
         out.append(res)
     json.dump(out, open(sys.argv[2], 'w'))
 
